@@ -112,6 +112,17 @@ CATALOGUE: list[tuple] = [
     ("error-context-no-keepends", ["C13"], EXC, "    lines = text.splitlines(keepends=True)\n    cumulative_length = 0", "    lines = text.splitlines()\n    cumulative_length = 0", "fire", "LINE-OFFSET"),
     ("skipuntil-or-default", ["C02", "C16"], TERMINALS, "        if best_index is not None:\n            state.pos = best_index\n        else:\n            state.pos = len(s)\n", "        state.pos = best_index or len(s)\n", "fire", "SkipUntil.parse"),
     ("checkpoint-conditional-snapshot", ["C05", "C09"], STATE, "        self.user_stack.snapshot()\n        self.rule_stack.snapshot()", "        if not self.user_stack.empty():\n            self.user_stack.snapshot()\n        self.rule_stack.snapshot()", "fire", "ParserState.checkpoint"),
+    # ---- C17 CALC-SEM / JSON-TREE (round six)
+    ("calc-pratt-sub-operands-swapped", ["C17"], "examples/calculator/pratt.py", "return InfixExpr(sub, lhs, rhs)", "return InfixExpr(sub, rhs, lhs)", "fire", "CALC-SEM"),
+    ("calc-climber-div-is-mul", ["C17"], "examples/calculator/prec_climber.py", "return InfixExpr(floordiv, left, right)", "return InfixExpr(mul, left, right)", "fire", "CALC-SEM"),
+    ("calc-grammar-pow-left", ["C17"], "examples/calculator/grammar_encoded_prec.pest", "pow_expr    =  { prefix ~ (pow_op ~ pow_expr)? }", "pow_expr    =  { prefix ~ (pow_op ~ prefix)* }", "fire", "CALC-SEM"),
+    ("calc-ast-evaluate-swapped", ["C17"], "examples/calculator/_ast.py", "return self.op(self.left.evaluate(variables), self.right.evaluate(variables))", "return self.op(self.right.evaluate(variables), self.left.evaluate(variables))", "fire", "CALC-SEM"),
+    ("calc-pest-ident-one-letter", ["C17"], "examples/calculator/calculator.pest", "ident  =  @{ ASCII_ALPHA+ }", "ident  =  @{ ASCII_ALPHA }", "fire", "CALC-SEM"),
+    ("S-calc-grammar-walker-equivalent-test", ["C17"], "examples/calculator/grammar_encoded_prec.py", "func = mul if op.name == \"mul\" else floordiv", "func = floordiv if op.name == \"div\" else mul", "silent", ""),
+    ("json-example-one-more-member-only", ["C17"], "examples/json/json.pest", "\"{\" ~ pair ~ (\",\" ~ pair)* ~ \"}\"", "\"{\" ~ pair ~ (\",\" ~ pair)? ~ \"}\"", "fire", "JSON-TREE"),
+    ("json-example-escape-solidus-dropped", ["C17"], "examples/json/json.pest", "(\"\\\"\" | \"\\\\\" | \"/\" | \"b\"", "(\"\\\"\" | \"\\\\\" | \"b\"", "fire", "JSON-TREE"),
+    ("S-json-example-boolean-reordered", ["C17"], "examples/json/json.pest", "boolean = { \"true\" | \"false\" }", "boolean = { \"false\" | \"true\" }", "silent", ""),
+    ("S-json-example-empty-object-second", ["C17"], "examples/json/json.pest", "    \"{\" ~ \"}\" |\n    \"{\" ~ pair ~ (\",\" ~ pair)* ~ \"}\"", "    \"{\" ~ pair ~ (\",\" ~ pair)* ~ \"}\" |\n    \"{\" ~ \"}\"", "silent", ""),
     ("pratt-prefix-max", ["C18"], PRATT, "            prec = self.PREFIX_OPS[token.name]", "            prec = max(self.PREFIX_OPS[token.name], min_prec)", "fire", "prefix"),
     ("S-merge-branches-inverted", ["C12"], CHOICE, "        if not merged or s > merged[-1][1] + 1:\n            merged.append([s, e])\n        else:\n            merged[-1][1] = max(merged[-1][1], e)", "        if merged and s <= merged[-1][1] + 1:\n            merged[-1][1] = max(merged[-1][1], e)\n        else:\n            merged.append([s, e])", "silent", ""),
     ("S-order-overlap-ord-form", ["C02"], CHOICE, "        return a.start <= b.value[:1] <= a.end", "        first = b.value[:1]\n        return not (first < a.start or first > a.end)", "silent", ""),
